@@ -37,8 +37,9 @@ RULE = ('One offender transport sends generated sequences of hostile frames '
         "offender frame: bystanders' rooms / sessions / outstanding "
         'callbacks / queues / handler and callback logs unchanged; every '
         'handler invocation carries an offender sid in the documented sid '
-        "position; a frame the implementation's own decoder rejects reaches "
-        'no handler; object-graph growth and tracemalloc peak bounded by the '
+        "position; a frame the implementation's own decoder rejects, or an "
+        'event whose payload is not a non-empty array (also one completed '
+        'by its attachments), reaches no handler; object-graph growth and tracemalloc peak bounded by the '
         'bytes received (peak < 2 MiB + 400 B per byte of frame: a CONNECT or a '
         'first use of a code path legitimately costs a few hundred KiB, an '
         'allocation proportional to a declared count of 10**7 or more does '
@@ -75,7 +76,8 @@ SEEDS = [
     # payloads of the wrong type: an event is an array that starts with
     # its name
     '2"a"', '2/x,"zz"', '2{"a":"§B0§"}', '2/c,"ab"', '2[]', '2/x,5{"zz":1}',
-    '2"b§B0§"', '2null', '2/c,true',
+    '2"b§B0§"', '2null', '2/c,true', '51-"a"', '51-/x,"zz"',
+    '52-"ab"', '51-{"_placeholder":true,"num":0}',
 ]
 
 
@@ -279,6 +281,7 @@ def _run(case, w):
     labels = {'aio': aio, 'serializer': ser, 'nontrivial': False}
     shared = {NSS[i] for i in case['off_ns']} & {'/', '/x', '/c'}
     next_by_id = [100]
+    pending_bad = [False]   # a binary event with a non-array payload waits
     for step, fr in enumerate(case['frames']):
         k = fr['k']
         if k == 'by':
@@ -319,6 +322,8 @@ def _run(case, w):
             body = None
         eio_sid = w.t[t_off]
         mid_binary = eio_sid in sio._binary_packet
+        if not mid_binary:
+            pending_bad[0] = False
         decodable = None
         if body is not None and not mid_binary:
             try:
@@ -329,6 +334,9 @@ def _run(case, w):
                     # not an event: nothing names it, nothing to spread
                     decodable = False
                     labels['payload_of_wrong_type'] = True
+                    if p.packet_type == 5 and p.attachment_count > 0:
+                        # ... and not after its attachments have come either
+                        pending_bad[0] = True
                 if p.packet_type in (2, 3, 5, 6) and \
                         (p.namespace or '/') in shared:
                     labels['nontrivial'] = True
@@ -380,6 +388,11 @@ def _run(case, w):
         if decodable is False and log:
             raise Violation('undecodable-frame-reached-handler',
                             'step %d frame %r: %r' % (step, fr, log[:2]))
+        if mid_binary and pending_bad[0] and log:
+            raise Violation('undecodable-frame-reached-handler',
+                            'step %d: the attachments of a binary event '
+                            'whose payload is not an array completed it: %r'
+                            % (step, log[:2]))
         for kind, args in log:
             pos = SID_POS[kind]
             sidv = args[pos] if len(args) > pos else None
